@@ -148,7 +148,8 @@ CLAIMS["C08"] = dict(
           "a trailing-slash-only match runs the route's handler with tsr=true iff the route ignores trailing slashes (and the method is not CONNECT, the path not '/'); it runs "
           "the redirect handler iff the route redirects and the request path equals CleanPath of itself, with no route/params in the context; otherwise the request is "
           "unserved (C11). FixTrailingSlash adds or removes exactly one final slash. copyWithResize keeps the tsr parameters. roots.lookup only ever sets the tsr flag it was "
-          "given. NOT proved (bounded only): that the walk reports tsr exactly when the slash-adjusted path has a route and picks the documented route."),
+          "given. The redirect handler answers 301 for GET and 308 otherwise, builds the Location from the escaped request path, as `<last segment>/` (prefixed with `./` whenever "
+          "the segment contains ':', so it can never be read as a scheme) or `../<last segment>` (exposed a genuine defect, repaired; RFC 3986 resolution itself is not modelled). NOT proved (bounded only): that the walk reports tsr exactly when the slash-adjusted path has a route and picks the documented route."),
     design_ref="DESIGN.md section 4 C08, section 9, section 10",
     note=TRUSTED + BOUNDED + " Assumed: the contract of (*iTree).lookup (selection is a function of the immutable tree and the request; writes only the context buffers). One genuine defect was repaired (tsr pointing at the parent route), three priority witnesses are open known findings.")
 CLAIMS["C09"] = dict(
